@@ -153,7 +153,70 @@ def r19_4_5(ctx) -> None:
               construct="to_bytes defaults")
 
 
+# pyca number constructors: slot (positional index / keyword) -> JWK member (RFC 7518 6.2 / 6.3)
+NUMBER_SLOTS = {
+    "RSAPublicNumbers": (["e", "n"], {"e": "e", "n": "n"}),
+    "RSAPrivateNumbers": (["p", "q", "d", "dmp1", "dmq1", "iqmp", "public_numbers"], {"p": "p", "q": "q", "d": "d", "dmp1": "dp", "dmq1": "dq", "iqmp": "qi"}),
+    "EllipticCurvePublicNumbers": (["x", "y", "curve"], {"x": "x", "y": "y"}),
+    "EllipticCurvePrivateNumbers": (["private_value", "public_numbers"], {"private_value": "d"}),
+}
+MANDATORY_SLOTS = {("RSAPublicNumbers", "e"), ("RSAPublicNumbers", "n"), ("EllipticCurvePublicNumbers", "x"), ("EllipticCurvePublicNumbers", "y"),
+                   ("EllipticCurvePrivateNumbers", "private_value"), ("RSAPrivateNumbers", "d")}
+
+
+def r19_8(ctx) -> None:
+    """R19.8  "positive integers in JWKs round-trip exactly": every integer that a JWK import hands to a pyca number constructor is
+    base64_to_int(obj["<the member of that slot>"]) - the decoder of R19.2, applied to the right member, with nothing in between
+    (no look-up table of "well known" encodings, no other decoder, no swapped member)."""
+    eng = ctx.eng
+    from .common import resolve_all
+    n = 0
+    for fn in eng.prog.all_functions():
+        if fn.name not in ("import_private_key", "import_public_key") or fn.cls is None:
+            continue
+        op = fn.pos_params[-1]
+        for node in fn_nodes(fn):
+            if not (isinstance(node, ast.Call) and isinstance(node.func, ast.Name) and node.func.id in NUMBER_SLOTS):
+                continue
+            order, member = NUMBER_SLOTS[node.func.id]
+            given = [(order[i], a) for i, a in enumerate(node.args) if i < len(order)] + [(kw.arg, kw.value) for kw in node.keywords if kw.arg]
+            for slot, a in given:
+                if slot not in member:
+                    continue
+                texts = resolve_all(eng, fn, a)
+                want = f"base64_to_int({op}['{member[slot]}'])"
+                direct = any(_reads_member_directly(t, op) for t in texts)
+                if not direct and (node.func.id, slot) not in MANDATORY_SLOTS:
+                    continue  # computed from other numbers (CRT parameters recovered from n, e, d)
+                n += 1
+                ctx.check(texts == [want], "R19.8", fn, node, f"{fn.short} :: {node.func.id}.{slot}", f"the integer given to {node.func.id}({slot}=...) is {texts}, not "
+                          f"{want}: the JWK member does not reach the key as the number it encodes", want, construct=f"{node.func.id}.{slot} in {fn.short}")
+    ctx.count("R19.8", n, 16, "integers handed from a JWK to a pyca number constructor")
+
+
+def _reads_member_directly(text: str, op: str) -> bool:
+    """`f(obj['m'])`, `TABLE[obj['m']]`, `T.get(obj['m'], ...)` or `obj['m']` itself: one step from the JWK member to the number"""
+    try:
+        e = ast.parse(text, mode="eval").body
+    except SyntaxError:
+        return False
+
+    def member(x: ast.AST) -> bool:
+        return isinstance(x, ast.Subscript) and isinstance(x.value, ast.Name) and x.value.id == op
+
+    if member(e):
+        return True
+    if isinstance(e, ast.Call):
+        return any(member(a) for a in e.args) or any(member(k.value) for k in e.keywords)
+    if isinstance(e, ast.Subscript):
+        return member(e.slice)
+    if isinstance(e, (ast.IfExp, ast.BoolOp, ast.BinOp)):
+        return any(member(x) or (isinstance(x, ast.Call) and any(member(a) for a in x.args)) for x in ast.walk(e))
+    return False
+
+
 def run(ctx) -> None:
+    ctx.guard(r19_8)
     from .common import forwarding_discipline
     ctx.guard(forwarding_discipline, "R19.7", ['s', 'data'], 4)  # arguments are handed on under their own name (generic routing rule, rules/common.py)
     ctx.guard(r19_1)
